@@ -774,11 +774,25 @@ def check(ctx, case):
         try:
             back, _ = roundtrip(cres, (), (p,), k)
         except Violation as v:
-            if "UPConflictingEffectsException" in v.sig and any(e.is_conditional() and e.condition.simplify().is_true() for a in p.actions for e in a.effects):
-                # a conditional effect with a tautological condition: the compiler makes it unconditional through an
-                # internal setter, producing two effects on one fluent that the public model API (which the reader
-                # uses) rejects - the compiled problem is not expressible through the API (C08's known findings)
-                raise Abstain("tautological-effect-condition")
+            if "UPConflictingEffectsException" in v.sig or "UPTypeError" in v.sig:
+                # Compilers build actions through internal setters; some results cannot be rebuilt through the public
+                # model API at all (two effects on one fluent after a tautological condition was simplified away, a
+                # constant folded into an assignment that violates the target's bounds).  No reader could rebuild such
+                # a problem: if re-adding the compiled action's own effects to a fresh action raises, the case is
+                # outside what the API can express (C08 / C23 territory), not a round-trip question.
+                from unified_planning.model import InstantaneousAction
+
+                for a in cres.problem.actions:
+                    if not isinstance(a, InstantaneousAction):
+                        continue
+                    fresh = InstantaneousAction(a.name + "_probe", _env=p.environment, **{q.name: q.type for q in a.parameters})
+                    try:
+                        for e in a.effects:
+                            m = {True: fresh.add_effect, False: None}[e.is_assignment()] or (fresh.add_increase_effect if e.is_increase() else fresh.add_decrease_effect)
+                            sub = {b.em.ParameterExp(q): b.em.ParameterExp(fresh.parameter(q.name)) for q in a.parameters}
+                            m(e.fluent.substitute(sub), e.value.substitute(sub), e.condition.substitute(sub), e.forall)
+                    except Exception:
+                        raise Abstain("compiled-problem-not-expressible-through-api")
             raise
         df = first_diff(d0, problem_digest(back.problem), "compiled-problem")
         if df:
